@@ -118,6 +118,14 @@ def plan(prop, tier):
                 g(D=2, P=3, ops=("submit", "clean"), flags=["-probe"], S=(1, 3)),
                 g(D=1, P=1, ops=maint_ops, flags=["-probe"], S=(1, 7))]
         gens += [sc([G, G, G, G, "clean"], flags=["-probeend"], S=(1, 7)), sc([G, G, G, G], flags=["-probeend"], S=(1, 3), works=(1, 3)), sc([G, G, "clean", G, G], flags=["-probeend"], D=1, P=1, S=(1, 7))]
+    elif prop == "C18":
+        exh = [("maint", 4, 1, 2, 1)]
+        pf = ["-proofs"]
+        gens = [g(D=1, P=1, ops=maint_ops, flags=pf, S=(1, 3)), g(D=2, P=2, ops=maint_ops, flags=pf, works=(1, 3)),
+                g(D=6, P=6, ops=("submit", "mark", "clean", "save", "load"), flags=pf),
+                sc([G, G, G, G, "clean", "save", "load"], D=1, P=1, flags=pf),
+                sc([G, G, "clean", G, G], D=2, P=1, flags=pf, works=(1, 3)),
+                sc([G, G, G, G, "mark", "clean"], flags=pf)]
     else:
         raise Infra("no header plan for " + prop)
     if not quick:
@@ -293,6 +301,36 @@ def run(prop, tier):
         loc_events = 0
         if prop == "C19":
             loc_events = validate_locators(scratch, loc_records, res)
+
+        # 4. C18: every tree shape, position and single-element corruption (MerkleProofs.tla) on real proofs
+        if prop == "C18":
+            maxn = 6 if tier == "quick" else 9
+            out, st = run_tlc(scratch, "MerkleProofs", cfg({"MaxN": maxn}, spec="Spec",
+                                                           invariants=["ValidVerifies", "CorruptFails", "EmitCase"]),
+                              workers=1, timeout=1800, name="merkle")
+            tlc_ok(out, st, "MerkleProofs")
+            states += st["distinct"]
+            transitions += st["generated"]
+            exh_desc.append("MerkleProofs trees of 1..%d leaves: %d cases" % (maxn, st["distinct"] // 2))
+            p = os.path.join(scratch, "merkle_cases.txt")
+            with open(p, "w") as fh:
+                fh.write(out)
+            rc, o, err = run_harness(binary, ["prf", "-in", p], timeout=1800)
+            if rc != 0 or not o.strip():
+                raise Infra("prf harness failed: " + err[-2000:])
+            r = json.loads(o)
+            if r["cases"] == 0:
+                raise Infra("no merkle proof cases")
+            comparisons["C18 proof cases"] = r["verifications"]
+            res.sample({"merkle_proof_cases": r["cases"], "verifications": r["verifications"], "by_place": r["by_place"]})
+            for d in r["divergences"]:
+                what = "%s (tree of %d, position %d, corruption %s/%d, header %s, %s form)" % (
+                    d["msg"], d["case"]["n"], d["case"]["pos"], d["case"]["kind"], d["case"]["at"], d["place"], d["form"])
+                f = match_finding("C18", what)
+                if f:
+                    res.add_known(f, what)
+                else:
+                    res.violation(what, {"engine": "prf", "case": d})
 
     res.coverage.update({
         "states": states, "transitions": transitions,
